@@ -11,30 +11,55 @@ def D():
     return E.dag
 
 
+def field(obj, name):
+    """attribute of an object or of a guarded union of objects (merged field view)"""
+    if isinstance(obj, L.U):
+        return E.mk([(g, getattr(v, name)) for g, v in obj.alts])
+    return getattr(obj, name)
+
+
+def dict_items(x):
+    """{key: (presence, value)} of a GDict or of a guarded union of GDicts"""
+    d = D()
+    if isinstance(x, L.GDict):
+        return {k: (p, v) for k, (p, v) in x.m.items()}
+    if isinstance(x, L.U):
+        acc = {}
+        for g, v in x.alts:
+            for k, (p, val) in dict_items(v).items():
+                acc.setdefault(k, []).append((d.and_(g, p), val))
+        return {k: (d.any_(g for g, _ in lst), E.mk(lst)) for k, lst in acc.items()}
+    if isinstance(x, dict):
+        return {k: (TRUE, v) for k, v in x.items()}
+    raise TypeError('not a dict value: %r' % (type(x),))
+
+
 # ---------------------------------------------------------------------------- DFA views
 class DfaView:
     """reads a (symbolic) DFA object into plain literal tables; must be built BEFORE lifted code may
     mutate the object (it snapshots guards, which are immutable)"""
 
-    def __init__(self, Dobj, names=None, syms=None):
+    def __init__(self, Dobj, names=None, syms=None, prune=None):
         d = D()
-        Qs = L._setview(Dobj.Q)
-        self.names = names or [e for e in Qs.m]
+        Qs = L._setview(field(Dobj, 'Q'))
+        if prune is None:
+            prune = names is None          # views of computed results: drop candidates that can never be present
+        self.names = names or [e for e in Qs.m if not prune or E.sat_guard_global(Qs.m[e])]
         self.qpres = {q: Qs.m.get(q, FALSE) for q in self.names}
-        Ss = L._setview(Dobj.Sigma)
+        Ss = L._setview(field(Dobj, 'Sigma'))
         self.syms = syms if syms is not None else [e for e in Ss.m]
         self.spres = {a: Ss.m.get(a, FALSE) for a in self.syms}
-        self.q0 = alt_map(Dobj.q0)
-        Fs = L._setview(Dobj.F)
+        self.q0 = alt_map(field(Dobj, 'q0'))
+        Fs = L._setview(field(Dobj, 'F'))
         self.F = {q: Fs.m.get(q, FALSE) for q in self.names}
         self.extraF = [e for e in Fs.m if e not in self.qpres]
         self.dl = {}
         self.keypres = {}
-        delta = Dobj.delta
-        assert isinstance(delta, L.GDict), type(delta)
-        for (q, a), (p, v) in delta.m.items():
+        for (q, a), (p, v) in dict_items(field(Dobj, 'delta')).items():
             self.keypres[(q, a)] = p
-            self.dl[(q, a)] = {t: d.and_(p, g) for t, g in alt_map(v).items()}
+            if prune and q not in self.qpres:
+                continue
+            self.dl[(q, a)] = {t: d.and_(p, g) for t, g in alt_map(v).items() if not prune or E.sat_guard_global(d.and_(p, g))}
 
     def step(self, vec, a_guards):
         """vec: {state: lit}; a_guards: {symbol: lit} (one-hot) -> successor vector"""
@@ -119,21 +144,19 @@ class NfaView:
 
     def __init__(self, N, names=None, syms=None):
         d = D()
-        Qs = L._setview(N.Q)
+        Qs = L._setview(field(N, 'Q'))
         self.names = names or [e for e in Qs.m]
         self.qpres = {q: Qs.m.get(q, FALSE) for q in self.names}
-        Ss = L._setview(N.Sigma)
+        Ss = L._setview(field(N, 'Sigma'))
         self.syms = syms if syms is not None else [e for e in Ss.m]
         self.spres = {a: Ss.m.get(a, FALSE) for a in self.syms}
-        self.q0 = alt_map(N.q0)
-        Fs = L._setview(N.F)
+        self.q0 = alt_map(field(N, 'q0'))
+        Fs = L._setview(field(N, 'F'))
         self.F = {q: Fs.m.get(q, FALSE) for q in self.names}
-        self.eps = alt_map(N.epsilon)       # {symbol: guard}
+        self.eps = alt_map(field(N, 'epsilon'))       # {symbol: guard}
         self.T = {}
         self.keys = {}
-        delta = N.delta
-        assert isinstance(delta, L.GDict), type(delta)
-        for (q, a), (p, v) in delta.m.items():
+        for (q, a), (p, v) in dict_items(field(N, 'delta')).items():
             self.keys[(q, a)] = p
             sv = L._setview(v)
             if isinstance(sv, (L.GSet, L.FSet)):
